@@ -8,6 +8,7 @@ import (
 	"fmt"
 	"sort"
 	"strings"
+	"time"
 
 	"github.com/AdguardTeam/AdGuardDNS/verif/tbench"
 	"github.com/miekg/dns"
@@ -128,6 +129,8 @@ type pathDef struct {
 	tls       bool               // stream: DoT instead of TCP
 	pipelined int                // stream: queries written back to back per burst
 	framing   string             // DoH POST: "" (sized), "unsized" (streamed body without a declared length), "raw-chunked" (hand-written HTTP/1.1 chunked request)
+	prod      bool               // the servers run the production handler chain: no reference handler, see prodPhase
+	quiet     time.Duration      // after an answer, keep reading for this long to see further responses to the same request
 	split     bool               // stream: every frame is written in pieces cut at interesting byte boundaries
 	halfClose bool               // stream: the client half-closes right after writing a burst of 1…pipelined queries
 	thorough  bool               // only in the thorough tier
@@ -185,10 +188,13 @@ const (
 	expDrop
 	// expQUICProtocolError: connection closed with DOQ_PROTOCOL_ERROR.
 	expQUICProtocolError
+	// expOne: exactly one response with the ID and the question of the
+	// request, byte for byte; what it says is compared across transports only.
+	expOne
 )
 
 func (k expKind) String() string {
-	return [...]string{"reference-answer", "rcode", "servfail-echo", "nothing-written", "drop", "quic-protocol-error"}[k]
+	return [...]string{"reference-answer", "rcode", "servfail-echo", "nothing-written", "drop", "quic-protocol-error", "exactly-one-echoing-response"}[k]
 }
 
 type expectation struct {
@@ -235,6 +241,10 @@ func expect(p *pathDef, in *input) (e expectation) {
 
 	if p.family == famDoQ && m != nil && hasKeepAlive(m) {
 		return expectation{kind: expQUICProtocolError, tag: "doq-keepalive", why: "doq: edns-tcp-keepalive in a query is a protocol error"}
+	}
+
+	if p.prod && cls == clsAccept {
+		return expectation{kind: expOne, tag: "prod:" + in.tag, why: "production pipeline: every acceptable query gets exactly one matching answer"}
 	}
 
 	nothing := func(tag, why string) expectation {
